@@ -465,7 +465,22 @@ class Interp:
         L = self.layout
         loc = self.resolve(state, frame, place)
         if loc is None:
-            # store through an unknown pointer
+            # store through an unknown pointer: it can only reach engine state if the pointee's type can hold any of it
+            base_ty = frame.body.locals[place["l"]]["s"] if place.get("l") is not None else ""
+            tails = [x.split("<")[0].split("::")[-1] for x in (L.evaluator, L.jobstate, L.nodeinfo if hasattr(L, "nodeinfo") else "NodeInfo",
+                                                               L.edgeinfo, L.signal_ty, "GraphMap", "JobState", "NodeInfo")]
+            harmless = base_ty and base_ty.startswith("&") and not any(t_ and t_ in base_ty for t_ in tails) and "dyn " not in base_ty \
+                and not any(ch_ in base_ty for ch_ in ("T>", "impl "))
+            if harmless:
+                # a per-job mark in a local table (`seen[job] = true`): the store form of inserting the job into a local set
+                for e in place["p"]:
+                    if e["k"] == "index":
+                        kav = state.locals.get((frame.fid, e["l"]), TOP)
+                        if kav[0] == "key" and kav[1] is not None:
+                            self.rec.put("mark", self.sitekey(frame, bi, si),
+                                         dict(fn=frame.body.name, bb=bi, span=span, key=(kav[1], kav[2]), value=av, stack=frame.stack,
+                                              fid=frame.fid))
+                return
             self.rec.note("imprecise", "store through unknown pointer in %s bb%d" % (frame.body.name, bi))
             self.havoc_jobs(state)
             return
